@@ -31,8 +31,7 @@ def run(chk, tier):
                 rel.append((z, z + 1, "KeyInit::new must mean the zero tweak"))
     outs, model = chk.run_family(["default"] if quick else ["default", "release"], ops)
     conf.require_models(chk, names)
-    if chk.nomodel.get("256") or chk.nomodel.get("512") or chk.nomodel.get("1024"):
-        chk.broken.append({"no_model_for": ["tf"]})
+
     impl = outs.get("default", [])
     for i, j, why in rel:
         if j < len(impl) and impl[i] != impl[j]:
